@@ -88,13 +88,13 @@ def py_resolve(bi, scopes, i, n):
     s = scopes[i]
     if n in s['globals']:
         return py_global(bi, scopes, n)
+    if s['kind'] == 'module':
+        return py_global(bi, scopes, n) if i == 0 else 'none'
     if n in s['nonlocals']:
         if not s['parent'] < i:
             return 'none'
         r = py_enclosing(bi, scopes, n, s['parent'])
         return r if r.startswith('free:') else 'none'
-    if s['kind'] == 'module':
-        return py_global(bi, scopes, n) if i == 0 else 'none'
     if n in s['bound']:
         return 'local'
     if not s['parent'] < i:
@@ -606,12 +606,9 @@ def probe_load(module, qualname, name):
         obj = m
         try:
             for part in fe.split('.'):
-                obj = getattr(obj, part) if not isinstance(obj, type) else obj.__dict__[part]
-            obj = getattr(obj, '__func__', obj)
-            obj = getattr(obj, '__wrapped__', obj)
-            if hasattr(obj, '__globals__') and obj.__globals__ is g:
-                lines.append(f'g = m.{fe}.__globals__' if all(p.isidentifier() for p in fe.split('.'))
-                             else 'g = vars(m)')
+                obj = getattr(obj, part)
+            if getattr(obj, '__globals__', None) is g and all(p.isidentifier() for p in fe.split('.')):
+                lines.append(f'g = m.{fe}.__globals__')
             else:
                 fe = None
         except Exception:
